@@ -136,6 +136,8 @@ def gen_energy(rng, cid, offmid=False):
     c = base_case(cid, times, panels, fps)
     if settled:
         c["pset"] = {}            # the solver's own Picard tolerances: a step must not be accepted before the fluid has settled too
+    if cid % 4 == 1:
+        c["fp_jitter"] = True     # flow-path times equal to the tube times up to round-off
     if cid % 2:
         c["page"] = True          # results paged to disk (one scratch directory per run)
     c["meta"] = {"kind": "offmid" if offmid else "energy", "paths": paths, "tol": 1e-3 if settled else 1e-5}
